@@ -11,7 +11,7 @@ from pymemcache.exceptions import MemcacheClientError
 
 PROPERTY = "C05"
 LEVEL = "exploration"
-RULE = ("history = client kind x configuration {prefix, default_noreply} x 1-25 steps over a universe of 3 keys: set/add/"
+RULE = ("history = client kind x configuration {prefix, default_noreply} x a per-step choice of spelling the keys as str or as bytes (the same item either way; multi-key answers are keyed by that call's spelling) x 1-25 steps over a universe of 3 keys: set/add/"
         "replace/append/prepend (noreply unset/True/False, expiry in {0,-1,1,2,5,30 days, 30 days+1, now+3}), cas with "
         "a token that is the last gets result for the key, or bogus; get/gets/get_many/gets_many/gat/gats; touch; "
         "delete/delete_many; incr/decr with small and huge deltas on numeric, non-numeric and missing items; flush_all "
@@ -237,8 +237,19 @@ def run_history(case):
                 r["cas"], r["_token_version"] = b"987654321", -1
         want = model.step(r)
         r.pop("_token_version", None)
-        res = env.call(ops.invoke, c, r)
-        what = "step %d %r of history %r (%s, cfg %r)" % (i, r, desc_hist, kind, cfg)
+        # the caller may spell a key as str in one call and as bytes in the next: same item, and multi-key answers are
+        # keyed by the spelling of THIS call
+        spell = case.get("spell")
+        as_bytes = bool(spell and spell[i % len(spell)])
+        res = env.call(ops.invoke, c, _respell(r) if as_bytes else r)
+        if as_bytes:
+            labels.add("bytes-spelling")
+            if res[0] == "ok" and isinstance(res[1], (dict, list)):
+                if not all(isinstance(k, bytes) for k in res[1]):
+                    raise Violation(["wrong-key-spelling", op], "called with bytes keys, the answer %r is keyed otherwise: step %d %r of history %r spelling %r (%s, cfg %r)"
+                                    % (res[1], i, r, desc_hist, spell, kind, cfg))
+                res = ("ok", {k.decode(): v for k, v in res[1].items()} if isinstance(res[1], dict) else [k.decode() for k in res[1]])
+        what = "step %d %r of history %r (%s, cfg %r%s)" % (i, r, desc_hist, kind, cfg, ", keys spelled as bytes in steps %r" % [j for j in range(len(steps)) if spell[j % len(spell)]] if spell else "")
         if want[0] == "exc":
             if not (res[0] == "exc" and isinstance(res[1], want[1])):
                 raise Violation(["wrong-outcome", op], "expected %s, got %r: %s" % (want[1].__name__, res, what))
@@ -269,11 +280,22 @@ def run_history(case):
     res = env.call(c.get_many, KEYS)
     want = {k: model.live(k)[0] for k in KEYS if model.live(k) is not None}
     if res[0] != "ok" or not _match(res[1], want, tokens):
-        raise Violation(["final-state"], "final get_many returned %r, the map model holds %r after history %r (%s, cfg %r)"
-                        % (res, want, desc_hist, kind, cfg))
+        raise Violation(["final-state"], "final get_many returned %r, the map model holds %r after history %r (%s, cfg %r, per-step key spelling %r)"
+                        % (res, want, desc_hist, kind, cfg, case.get("spell")))
     if env.server.errors:
         raise Violation(["server-parse-errors"], "server logged %r after history %r" % (env.server.errors[:2], desc_hist))
     return dependent, sorted(labels | {kind})
+
+
+def _respell(r):
+    r = dict(r)
+    if "key" in r:
+        r["key"] = r["key"].encode()
+    if "keys" in r:
+        r["keys"] = [k.encode() for k in r["keys"]]
+    if "values" in r:
+        r["values"] = {k.encode(): v for k, v in r["values"].items()}
+    return r
 
 
 def check(case):
@@ -320,6 +342,12 @@ def exhaustive_cases(tier, seed):
         for seq in itertools.product(range(len(ALPHA)), repeat=n):
             kind = ("client", "pooled", "hash")[(sum(seq) + n) % 3]
             yield {"kind": kind, "cfg": cfgs[(sum(seq) // 3) % 2], "steps": [ALPHA[i] for i in seq]}
+    # alternating spellings (str, bytes, str / bytes, str, bytes) of the key over the reads and a few writes
+    sub = [ALPHA[i] for i in (0, 9, 10, 11, 12, 15, 22, 23)]
+    for seq in itertools.product(range(len(sub)), repeat=3):
+        for spell in ([0, 1, 0], [1, 0, 1]):
+            yield {"kind": ("client", "pooled", "hash", "hash-pooled")[(sum(seq) + spell[0]) % 4], "cfg": {"key_prefix": b"" if sum(seq) % 2 else b"s:", "default_noreply": False},
+                   "steps": [sub[0]] + [sub[i] for i in seq], "spell": [0] + spell}
     if tier == "thorough":
         # every sequence of length 4 over the full 25-instance alphabet (390 625)
         for seq in itertools.product(range(len(ALPHA)), repeat=4):
@@ -372,7 +400,8 @@ def history_strategy(tier):
     cfg = st.fixed_dictionaries({"key_prefix": st.sampled_from([b"", b"", b"ns:", "sp."]), "default_noreply": st.booleans(),
                                  "cas_start": st.sampled_from([0, 999999990, 2 ** 32 + 5, 2 ** 63 + 11, 2 ** 64 - 500])})
     return st.fixed_dictionaries({"kind": st.sampled_from(["client", "pooled", "hash", "hash-pooled"]), "cfg": cfg,
-                                  "steps": st.lists(step, min_size=1, max_size=25)})
+                                  "steps": st.lists(step, min_size=1, max_size=25),
+                                  "spell": st.one_of(st.none(), st.lists(st.integers(0, 1), min_size=1, max_size=7))})
 
 
 def _drop_none_noreply(case):
